@@ -18,4 +18,4 @@ CONSTANTS
   MaxLeave = 1
   MaxPubB = 2
 INVARIANTS Quiescent QueueBound WholeUnits
-VIEW GView
+ACTION_CONSTRAINT EmitA
